@@ -161,3 +161,98 @@ Theorem C13_interleaving_keeps_per_operation_order : forall (A : Type) sched (ls
   proj_op i (interleave sched ls) ++ nth i (remaining sched ls) [] = nth i ls [].
 Proof. exact (@proj_interleave). Qed.
 Print Assumptions C13_interleaving_keeps_per_operation_order.
+
+(* PROCESS-WIDE STATE.  A run changes the process (caches, memo tables) and the next run in the same process starts from what it
+   left.  FULL, every plan, every list of carried sites with distinct ids, every discipline functions key / pure / wr and every
+   generator: if every carried site that a work reads is a Memo (content determined by the key) or a Registry (never written by
+   a run), the traffic of a run does not depend on the runs that preceded it in the process - any two histories, in particular a
+   used process and a fresh one (hist = []) *)
+Theorem C13_traffic_independent_of_history : forall key pure wr genp p cs hist hist' r a,
+  ids_distinct cs = true -> works_carried_safe cs (snd p) = true ->
+  traffic_after key pure wr genp p cs hist r a = traffic_after key pure wr genp p cs hist' r a.
+Proof. exact history_independent. Qed.
+Print Assumptions C13_traffic_independent_of_history.
+
+(* ... and if moreover every contributing entropy site is seeded, the traffic is a function of (seed, schema, configuration)
+   only: neither the history of the process nor the ambient entropy matters *)
+Theorem C13_traffic_function_of_seed_schema_configuration : forall key pure wr genp p cs hist hist' r a a',
+  ids_distinct cs = true -> works_carried_safe cs (snd p) = true -> all_seeded p = true ->
+  traffic_after key pure wr genp p cs hist r a = traffic_after key pure wr genp p cs hist' r a'.
+Proof. exact traffic_function_of_inputs. Qed.
+Print Assumptions C13_traffic_function_of_seed_schema_configuration.
+
+(* every list of carried sites, every context: either all the sites read there are safe and the history is irrelevant, or a
+   run-written site is read and there are a history and a run whose traffic differs from the same run in a fresh process *)
+Theorem C13_carried_dichotomy : forall cs x, ids_distinct cs = true ->
+  (carried_safe cs x = true /\
+   forall key pure wr genp sites ws hist hist' r a, works_in (fun y => carried_safe cs y) ws = true ->
+     traffic_after key pure wr genp (sites, ws) cs hist r a = traffic_after key pure wr genp (sites, ws) cs hist' r a)
+  \/ (carried_unsafe_active cs x = true /\
+      exists key pure wr genp p hist r a,
+        traffic_after key pure wr genp p cs hist r a <> traffic_after key pure wr genp p cs [] r a).
+Proof. exact carried_dichotomy. Qed.
+Print Assumptions C13_carried_dichotomy.
+
+(* TODAY's source (Gen_C13.gen_carried, extracted on every run): PARTIAL, outside the coverage phase no run leaves anything behind
+   that a later run could read differently ... *)
+Theorem C13_current_history_partial : forall key pure wr genp ws hist hist' r a,
+  works_in carried_region_today ws = true ->
+  traffic_after key pure wr genp (gen_sites, ws) gen_carried hist r a = traffic_after key pure wr genp (gen_sites, ws) gen_carried hist' r a.
+Proof. exact current_history_independent. Qed.
+Print Assumptions C13_current_history_partial.
+
+(* ... so in the region that is seeded today (fuzzing, stateful; no multipart) the traffic is a function of the run alone *)
+Theorem C13_current_traffic_function_of_inputs_partial : forall key pure wr genp ws hist hist' r a a',
+  works_in seeded_region_today ws = true ->
+  traffic_after key pure wr genp (gen_sites, ws) gen_carried hist r a = traffic_after key pure wr genp (gen_sites, ws) gen_carried hist' r a'.
+Proof. exact current_traffic_function_of_inputs. Qed.
+Print Assumptions C13_current_traffic_function_of_inputs_partial.
+
+(* the complete table of today: the only carried site whose content is not determined by its key is the lru_cache of the
+   unseeded coverage draw (site 73, cached_draw - finding F2); an unclassified mutation of process-wide state changes it *)
+Theorem C13_current_carried_sites :
+  ids_distinct gen_carried = true
+  /\ unsafe_table gen_carried =
+     [ []; []; []; [];
+       [73]; [73]; [73]; [73];
+       []; []; []; [];
+       []; []; []; [] ].
+Proof. split. exact gen_carried_ids_distinct. exact current_unsafe_table. Qed.
+Print Assumptions C13_current_carried_sites.
+
+(* REFUTED in the coverage phase (F2 seen as carried state: whoever runs first fills the memo) *)
+Theorem C13_coverage_memo_refuted :
+  carried_unsafe_active gen_carried cov_pos = true /\ carried_unsafe_active gen_carried cov_neg = true
+  /\ exists key pure wr genp p hist r a,
+       traffic_after key pure wr genp p gen_carried hist r a <> traffic_after key pure wr genp p gen_carried [] r a.
+Proof. exact coverage_memo_refuted. Qed.
+Print Assumptions C13_coverage_memo_refuted.
+
+(* SENTINEL (seeded regression C13_d): a configuration-dependent write into a process-wide object read by every later run
+   (the header-value strategy assigned into the dict returned by the lru_cache-d get_default_format_strategies) is refuted in the
+   phases that are reproducible today ... *)
+Theorem C13_formats_leak_sentinel_refuted :
+  carried_unsafe_active sentinel_carried_with_formats_leak fuzz_pos = true
+  /\ carried_unsafe_active sentinel_carried_with_formats_leak st_pos = true
+  /\ exists key pure wr genp hist r a,
+       traffic_after key pure wr genp (unit_plan fuzz_pos) sentinel_carried_with_formats_leak hist r a
+       <> traffic_after key pure wr genp (unit_plan fuzz_pos) sentinel_carried_with_formats_leak [] r a.
+Proof. exact formats_leak_sentinel_refuted. Qed.
+Print Assumptions C13_formats_leak_sentinel_refuted.
+
+(* ... and is told apart from the plan of today *)
+Theorem C13_formats_leak_sentinel_differs_from_current_plan :
+  unsafe_table sentinel_carried_with_formats_leak <> unsafe_table gen_carried
+  /\ carried_safe sentinel_carried_with_formats_leak fuzz_pos = false /\ carried_safe gen_carried fuzz_pos = true.
+Proof. exact formats_leak_sentinel_differs. Qed.
+Print Assumptions C13_formats_leak_sentinel_differs_from_current_plan.
+
+(* what the runtime snapshots are checked for: in every reachable process state an entry of a Memo site survives the next run
+   unchanged, and nothing is ever stored at a Registry site *)
+Theorem C13_safe_entries_survive_runs : forall key pure wr cs hist r c k v,
+  ids_distinct cs = true -> In c cs ->
+  (c_class c = Memo -> after key pure wr cs hist (c_id c) k = Some v ->
+     step_run key pure wr cs (after key pure wr cs hist) r (c_id c) k = Some v)
+  /\ (c_class c = Registry -> step_run key pure wr cs (after key pure wr cs hist) r (c_id c) k = None).
+Proof. exact safe_entries_survive. Qed.
+Print Assumptions C13_safe_entries_survive_runs.
